@@ -115,12 +115,21 @@ def run(m, rep, tier):
             loops.append((gep, i, bound))
         ok_all = True
         whys = []
+        verdicts = []
         for gep, iv, bound in loops:
             if bound is None:
-                ok_all = False
-                whys.append('loop at %s has no recognisable bound' % gep.loc())
+                verdicts.append((iv, False, 'loop at %s has no recognisable bound' % gep.loc()))
                 continue
             ok, why = classify_pa(w, bound[1], bound[0], 'count', cover=True)
+            verdicts.append((iv, ok, why))
+        for iv, ok, why in verdicts:
+            if not ok:
+                # a walk split into consecutive passes over one index: the pass that stops at the current count is
+                # continued, from the index it reached, by a pass whose bound covers the pending geometry
+                cont = [iv2 for iv2, ok2, _ in verdicts if ok2 and iv2 is not iv and iv.ref in {strip_ext(w, o) for o in iv2.o if isinstance(o, str)}]
+                starts0 = any(const_int(o) == 0 for o in iv.o)
+                if cont and starts0:
+                    ok, why = True, 'first pass of a split walk (%s), continued by the covering pass' % why[:80]
             whys.append(why)
             ok_all = ok_all and ok
         walker_ok[w.name] = (ok_all, '; '.join(whys), loops)
